@@ -1552,4 +1552,235 @@ Proof.
   - (* 9 k *)
     split; [apply hkeep_world with (w' := w); [apply hkeep_refl; exact G|apply wstep_ev]|exact I].
 Qed.
+
+(* ---- the request parser makes progress: from the state Header it cannot finish without consuming ---- *)
+Lemma header_break d r s' o : header_drive d = (Break r s', o) -> s' = Header \/ exists e, s' = Fatal e.
+Proof.
+  rewrite header_drive_eq. unfold try_head.
+  destruct (len d <? HEADER_LEN); [intros E; inversion E; left; reflexivity|].
+  destruct (hdr_decode (take HEADER_LEN d)) as [t id cl pl|v|t].
+  - unfold header_body. destruct (t =? RT_BeginRequest).
+    + destruct (negb (BeginRequest_LEN =? cl)); [intros E; inversion E; right; eexists; reflexivity|].
+      destruct (len d <? 16); [intros E; inversion E; left; reflexivity|].
+      destruct (begin_decode (slice 8 16 d)) as [x [[role flags]|]].
+      * destruct (id =? 0); intros E; inversion E. right; eexists; reflexivity.
+      * intros E; inversion E.
+    + destruct ((t =? RT_GetValues) && hdr_is_management t id); intros E; inversion E.
+  - intros E; inversion E. right; eexists; reflexivity.
+  - intros E; inversion E.
+Qed.
+
+Lemma parse_facts p new : parser_ok p -> bytes_ok new -> len new <= input_space p ->
+  exists p' d o, parse norm maxc p new = POk p' d o /\ parser_ok p' /\ d = is_final (st p') /\
+    len (held p') <= len (held p) + len new /\
+    (st p = Header -> (st p' = Header \/ exists e, st p' = Fatal e) \/ len (held p') < len (held p) + len new).
+Proof.
+  intros Hp Hn Hsp.
+  destruct (F_parse_total norm maxc p new Hp Hn Hsp) as (p' & d & o & E & Hp' & _ & _ & _).
+  destruct (parse_spec norm maxc (F_S1 norm) p new Hp Hn Hsp) as (rest & s' & o' & Ed & G1 & G2 & G3 & G4 & G5 & _ & Hparse).
+  exists p', d, o. split; [exact E|]. split; [exact Hp'|]. rewrite E in Hparse.
+  pose proof (suffix_len _ _ G4) as Hl. rewrite len_app in Hl.
+  assert (C : st p = Header -> (s' = Header \/ exists e, s' = Fatal e) \/ len rest < len (held p) + len new).
+  { intros Eh. rewrite Eh in Ed. unfold drive_all in Ed.
+    set (data := held p ++ new) in *.
+    assert (Hd : bytes_ok data) by (subst data; apply bytes_ok_app; split; [apply Hp|exact Hn]).
+    assert (Hsz : len data <= cap p).
+    { subst data. rewrite len_app. unfold input_space in Hsp. destruct Hp as (_ & _ & _ & Hc & _). lia. }
+    assert (Hcap : cap p < SIZE_LIMIT) by apply Hp.
+    rewrite <- len_app. fold data.
+    destruct (drive_fuel_S data) as [f Ef]. rewrite Ef, drive_S in Ed. cbn [drive1] in Ed.
+    pose proof (header_post data Hd) as HP.
+    destruct (header_drive data) as [[r s1|r s1|n] oo] eqn:Eh1; cbn [ReqDrive.head_post] in HP.
+    - inversion Ed; subst. left. eapply header_break. exact Eh1.
+    - destruct HP as (P1 & P2 & P3 & P4). destruct r as [|x r'].
+      + inversion Ed; subst. right. rewrite len_nil in *. lia.
+      + right. pose proof (suffix_len _ _ P3) as Hr.
+        destruct (drive_enough norm maxc (F_S1 norm) f s1 (x :: r') ([] ++ oo) (proj1 P1) (suffix_ok _ _ P3 Hd)
+                    ltac:(lia) ltac:(pose proof (kappa_le1 s1); unfold drive_fuel in Ef; unfold len in *; lia))
+          as (r2 & s2 & o2 & E2 & _ & _ & S2 & _).
+        rewrite E2 in Ed. inversion Ed; subst. pose proof (suffix_len _ _ S2). lia.
+    - contradiction. }
+  destruct (negb (is_final s') && (len rest =? cap p)) eqn:Ec; inversion Hparse; subst; cbn [held st].
+  - split; [reflexivity|]. split; [lia|]. intros _. left. right. eexists. reflexivity.
+  - split; [reflexivity|]. split; [lia|exact C].
+Qed.
+
+Definition preq_post (p : parser) (new : bytes) (w : world) (x : res (sp + N)) : Prop :=
+  match x with
+  | Ok (inl s) w' =>
+    pgood s /\ wstep w w' /\ stream_buffer s = [] /\ stream s = next_input_stream (r_role (sreq s)) None /\
+    (length (raw_bytes s) + nb w' <= length (held p) + length new + nb w)%nat /\
+    (st p = Header -> (length (raw_bytes s) + nb w' < length (held p) + length new + nb w)%nat)
+  | Ok (inr _) w' => wstep w w'
+  | Halt o w' => wstep w w' /\ okhalt w o
+  end.
+
+Lemma parse_request_ok : forall fuel p new w, parser_ok p -> world_ok w -> bytes_ok new ->
+  len new <= input_space p -> (nb w + 1 <= fuel)%nat ->
+  preq_post p new w (parse_request norm maxc fuel p new w).
+Proof.
+  induction fuel as [|f IH]; intros p new w Hp Wok Hn Hsp Hf; [lia|]. cbn [parse_request].
+  destruct (parse_facts p new Hp Hn Hsp) as (p' & d & o & E & Hp' & Hd & Hl & Hprog). rewrite E.
+  pose proof (await_write_all_io true o w (len o)) as W1.
+  destruct (await_write_all (io_fuel w (len o)) true o w) as [[k|] w1|o1 w1].
+  - exact W1.
+  - destruct d.
+    + destruct (st p') as [| | | | | | |rq|e] eqn:Est; try (unfold into_stream_parser; rewrite Est; exact W1).
+      destruct (into_stream_parser_init p' rq Est (proj1 (proj2 (proj2 (proj2 Hp'))))) as (p0 & E0 & R0 & A0).
+      rewrite E0. cbn [preq_post].
+      pose proof (f_equal a_parsed A0) as X1. pose proof (f_equal a_raw A0) as X2. pose proof (f_equal a_B A0) as X3.
+      pose proof (f_equal a_req A0) as X4. pose proof (f_equal a_stream A0) as X5.
+      cbn [abs a_parsed a_raw a_B a_req a_stream] in X1, X2, X3, X4, X5.
+      destruct Hp' as (Q1 & Q2 & Q3 & Q4 & Q5).
+      split; [|split; [exact W1|split; [exact X1|split; [rewrite X4; exact X5|]]]].
+      * split; [exact R0|]. split; [|split; [rewrite X2; exact Q3|rewrite X3; exact Q5]].
+        unfold stream_ok. rewrite X5. destruct (next_input_stream (r_role rq) None) as [e|] eqn:En; [|exact I].
+        eapply next_is_input. exact En.
+      * rewrite X2. pose proof (ws_b _ _ W1). split; [unfold len in *; lia|].
+        intros Eh. destruct (Hprog Eh) as [[C|[e C]]|C]; [congruence|congruence|unfold len in *; lia].
+    + pose proof (await_read_io true (input_space p') w1 0) as AR.
+      destruct (await_read (io_fuel w1 0) true (input_space p') w1) as [[b|k] w2|o2 w2].
+      * destruct AR as (S2 & Hb & Hlb & Hnb). destruct b as [|x b']; [eapply wstep_trans; eassumption|].
+        pose proof (ws_ok _ _ W1 Wok) as Wok1.
+        specialize (IH p' (x :: b') w2 Hp' (ws_ok _ _ S2 Wok1) (Hb Wok1) Hlb
+                      ltac:(pose proof (ws_b _ _ W1); cbn [length] in Hnb; lia)).
+        unfold preq_post in *. destruct (parse_request norm maxc f p' (x :: b') w2) as [[s|k] w3|o3 w3].
+        -- destruct IH as (I1 & I2 & I3 & I4 & I5 & I6).
+           split; [exact I1|]. split; [eapply wstep_trans; [exact W1|]; eapply wstep_trans; eassumption|].
+           split; [exact I3|]. split; [exact I4|]. pose proof (ws_b _ _ W1).
+           split; [unfold len in *; lia|]. intros Eh.
+           destruct (Hprog Eh) as [[C|[e C]]|C].
+           ++ specialize (I6 C). unfold len in *. lia.
+           ++ rewrite C in Hd. discriminate Hd.
+           ++ unfold len in *. lia.
+        -- eapply wstep_trans; [exact W1|]. eapply wstep_trans; eassumption.
+        -- destruct IH as [I1 I2]. assert (S3 : wstep w w2) by (eapply wstep_trans; eassumption).
+           split; [eapply wstep_trans; eassumption|eapply okhalt_step; eassumption].
+      * destruct AR as [S2 _]. eapply wstep_trans; eassumption.
+      * destruct AR as [S2 O2]. split; [eapply wstep_trans; eassumption|eapply okhalt_step; eassumption].
+  - destruct W1 as [W1 ->]. split; [exact W1|left; reflexivity].
+Qed.
+
+(* ---- Token::run ---- *)
+Lemma wstep_fold_ev (env : list (bytes * bytes)) : forall w,
+  wstep w (fold_left (fun w p => w_ev (w_ev w (fst p)) (snd p)) env w).
+Proof.
+  induction env as [|e t IH]; intros w; [apply wstep_refl|]. cbn [fold_left].
+  eapply wstep_trans; [|apply IH]. eapply wstep_trans; apply wstep_ev.
+Qed.
+
+Lemma Forall_last {A} (P : A -> Prop) l d : Forall P l -> P d -> P (last l d).
+Proof.
+  induction l as [|x t IH]; intros H Hd; [exact Hd|]. inversion H; subst. cbn [last].
+  destruct t; [assumption|]. apply IH; assumption.
+Qed.
+
+Lemma Forall_nth_default {A} (P : A -> Prop) l d n : Forall P l -> P d -> P (nth n l d).
+Proof.
+  intros H Hd. destruct (nth_in_or_default n l d) as [Hin| ->]; [|exact Hd].
+  rewrite Forall_forall in H. apply H. exact Hin.
+Qed.
+
+(* every script is well-formed for whatever role the client asks *)
+Definition scripts_ok (strict : bool) (scripts : list (list N)) : Prop :=
+  Forall (fun s => forall role, script_ok strict role (next_input_stream role None) s) scripts.
+
+Lemma run_loop_ok strict scripts : scripts_ok strict scripts ->
+  forall fuel p served w, parser_ok p -> st p = Header -> world_ok w -> (length (held p) + nb w + 2 <= fuel)%nat ->
+  wstep w (snd (run_loop norm maxc fuel p scripts served w)) /\
+  okhalt70 strict w (fst (run_loop norm maxc fuel p scripts served w)).
+Proof.
+  intros Hscripts. induction fuel as [|f IH]; intros p served w Hp Eh Wok Hf; [lia|]. cbn [run_loop].
+  assert (RET : forall w', wstep w w' -> wstep w (snd (ORet, w')) /\ okhalt70 strict w (fst (ORet, w'))).
+  { intros w' S. cbn [fst snd]. split; [exact S|left; left; reflexivity]. }
+  destruct (stopped w); [apply RET; apply wstep_refl|].
+  pose proof (parse_request_ok (io_fuel w 0) p [] w Hp Wok ltac:(apply Forall_nil) ltac:(rewrite len_nil; lia)
+                ltac:(rewrite io_fuel_eq; lia)) as PR.
+  unfold preq_post in PR.
+  destruct (parse_request norm maxc (io_fuel w 0) p [] w) as [[s0|k] w1|o w1].
+  2:{ apply RET. exact PR. }
+  2:{ cbn [fst snd]. destruct PR as [P1 P2]. split; [exact P1|left; exact P2]. }
+  destruct PR as (G0 & S1 & B0 & St0 & _ & Hlt). specialize (Hlt Eh). cbn [length] in Hlt.
+  set (role := r_role (sreq s0)) in *.
+  set (r0 := mkR s0 (len (role_input_streams role) <=? 1) false).
+  assert (GR0 : rgood r0).
+  { split; [exact G0|]. unfold wr_inv. subst r0. cbn [rsp rwriteable]. fold role. rewrite St0. apply wr_inv_init. }
+  set (w2 := fold_left _ _ _).
+  assert (S2 : wstep w1 w2).
+  { subst w2. eapply wstep_trans; [|apply wstep_fold_ev]. eapply wstep_trans; apply wstep_ev. }
+  set (script := nth served scripts (last scripts [])).
+  assert (Hscript : script_ok strict role (next_input_stream role None) script).
+  { subst script. apply (Forall_nth_default (fun s => forall role, script_ok strict role (next_input_stream role None) s));
+      [exact Hscripts|]. apply Forall_last; [exact Hscripts|]. intros role'. constructor. }
+  pose proof (run_handler_ok strict role _ script Hscript (length script + 2) r0 w2 ltac:(lia) GR0
+                (ws_ok _ _ S2 (ws_ok _ _ S1 Wok)) eq_refl St0) as RH.
+  assert (S02 : wstep w w2) by (eapply wstep_trans; eassumption).
+  unfold hpost in RH.
+  destruct (run_handler maxc (length script + 2) script r0 w2) as [[st r1] w3|o w3].
+  2:{ cbn [fst snd]. destruct RH as [R1 R2]. split; [eapply wstep_trans; eassumption|eapply okhalt70_step; eassumption]. }
+  destruct RH as ((G1 & S3 & Q1 & Q2 & Z1) & Hst).
+  assert (S03 : wstep w w3) by (eapply wstep_trans; eassumption).
+  assert (CLOSE : forall d c, In d EXITSTATUS_VALUES ->
+    wstep w (snd (match do_close maxc r1 d c w3 with
+                  | Halt o w4 => (o, w4)
+                  | Ok (inl rp) w4 => run_loop norm maxc f rp scripts (S served) w4
+                  | Ok (inr _) w4 => (ORet, w4)
+                  end)) /\
+    okhalt70 strict w (fst (match do_close maxc r1 d c w3 with
+                  | Halt o w4 => (o, w4)
+                  | Ok (inl rp) w4 => run_loop norm maxc f rp scripts (S served) w4
+                  | Ok (inr _) w4 => (ORet, w4)
+                  end))).
+  { intros d c Hd. pose proof (do_close_ok r1 d c w3 G1 (ws_ok _ _ S03 Wok) Hd) as DC. unfold close_post in DC.
+    destruct (do_close maxc r1 d c w3) as [[rp|k] w4|o w4].
+    - destruct DC as (C1 & C2 & C3 & C4).
+      assert (Hf' : (length (held rp) + nb w4 + 2 <= f)%nat).
+      { pose proof (ws_b _ _ S2). unfold rsize, psize in *. subst r0. cbn [rsp] in *. rewrite B0 in Z1. cbn [length] in Z1. lia. }
+      destruct (IH rp (S served) w4 C1 C2 (ws_ok _ _ C3 (ws_ok _ _ S03 Wok)) Hf') as [I1 I2].
+      assert (S04 : wstep w w4) by (eapply wstep_trans; eassumption).
+      split; [eapply wstep_trans; eassumption|eapply okhalt70_step; eassumption].
+    - apply RET. eapply wstep_trans; eassumption.
+    - cbn [fst snd]. destruct DC as [D1 D2]. split; [eapply wstep_trans; eassumption|].
+      left. eapply okhalt_step; eassumption. }
+  destruct st as [[d c]|k].
+  - apply CLOSE. exact Hst.
+  - destruct (k =? EK_Aborted); [apply CLOSE; apply exit_complete_in|apply RET; exact S03].
+Qed.
+
+(* ---- main theorems ---- *)
+Theorem run_loop_total scripts B w0 :
+  world_ok w0 -> scripts_ok true scripts -> B < SIZE_LIMIT - 8 ->
+  exists w, run_loop norm maxc (nb w0 + 4) (new_parser B) scripts 0 w0 = (ORet, w) \/
+            (run_loop norm maxc (nb w0 + 4) (new_parser B) scripts 0 w0 = (ODeadlock, w) /\ ~ ungated w0).
+Proof.
+  intros Wok Hs HB.
+  destruct (run_loop_ok true scripts Hs (nb w0 + 4) (new_parser B) 0%nat w0 (new_parser_ok B HB) eq_refl Wok
+              ltac:(cbn [new_parser held length]; lia)) as [_ O].
+  destruct (run_loop norm maxc (nb w0 + 4) (new_parser B) scripts 0 w0) as [o w]. exists w. cbn [fst] in O.
+  destruct O as [[->|[-> NU]]|[X _]]; [left; reflexivity|right; split; [reflexivity|exact NU]|discriminate X].
+Qed.
+
+(* C12: without gating (all bytes available, then EOF) the connection task always returns, wherever the
+   transport EOF / error / zero-length write / spurious wake-ups occur *)
+Theorem run_loop_terminates scripts B w0 :
+  world_ok w0 -> scripts_ok true scripts -> B < SIZE_LIMIT - 8 -> ungated w0 ->
+  exists w, run_loop norm maxc (nb w0 + 4) (new_parser B) scripts 0 w0 = (ORet, w).
+Proof.
+  intros Wok Hs HB U. destruct (run_loop_total scripts B w0 Wok Hs HB) as (w & [E|[_ NU]]); [exists w; exact E|contradiction].
+Qed.
+
+(* without the stream-order requirement on scripts: the only possible panic is the handler's own unwrap of a
+   rejected set_stream (site 70) *)
+Theorem run_loop_total_lax scripts B w0 :
+  world_ok w0 -> scripts_ok false scripts -> B < SIZE_LIMIT - 8 ->
+  exists w, run_loop norm maxc (nb w0 + 4) (new_parser B) scripts 0 w0 = (ORet, w) \/
+            (run_loop norm maxc (nb w0 + 4) (new_parser B) scripts 0 w0 = (ODeadlock, w) /\ ~ ungated w0) \/
+            run_loop norm maxc (nb w0 + 4) (new_parser B) scripts 0 w0 = (OPanic 70, w).
+Proof.
+  intros Wok Hs HB.
+  destruct (run_loop_ok false scripts Hs (nb w0 + 4) (new_parser B) 0%nat w0 (new_parser_ok B HB) eq_refl Wok
+              ltac:(cbn [new_parser held length]; lia)) as [_ O].
+  destruct (run_loop norm maxc (nb w0 + 4) (new_parser B) scripts 0 w0) as [o w]. exists w. cbn [fst] in O.
+  destruct O as [[->|[-> NU]]|[_ ->]]; [left; reflexivity|right; left; split; [reflexivity|exact NU]|right; right; reflexivity].
+Qed.
 End ConnTotal.
